@@ -154,10 +154,7 @@ theorem pathMultiple_t (t : Int) (s : Osu) (r : Pat × Osu) (h : pathMultiple A 
 theorem pathNRandom_t (ct : Nat) (t : Int) (ht : t ≤ g.endT) (p2 p3 p4 : F) (s : Osu) (r : Pat × Osu)
     (h : pathNRandom A g ct t p2 p3 p4 s = .ok r) : PatT r.1 := by
   unfold pathNRandom at h
-  simp only at h
   obtain ⟨canTwo, _, h3⟩ := bind_ok h
-  generalize noteCount A s _ _ _ _ _ = nc at h3
-  obtain ⟨n, s1⟩ := nc
   exact pathRandomHoldNotes_t g t ht _ _ _ h3
 
 /-- tiled hold notes: the `k` remaining tiles start at `t, t + seg, …`, all at or before `endT` -/
